@@ -117,6 +117,46 @@ def _r11_lists_as_configured(ctx):
                   "the advertisement builder reorders or shortens a list: %s" % (bad or "-"))
 
 
+def _r13_prefix_defaults(ctx):
+    """R13 a prefix entry that leaves a setting out gets RFC 4861 6.2.1's default whatever else the entry says: on-link and autonomous
+    default to true (constants — not something computed from the prefix), valid and preferred lifetimes to 2592000 s and 604800 s."""
+    P = ctx.P
+    n = 0
+    for b in P.bodies.values():
+        if not b.id.endswith("radv::config::parse_prefix"):
+            continue
+        T = terms(P, b)
+        for _, bb, idx, st in find_aggs(P, "radv::config::Prefix", [b]):
+            t = norm(T.rvalue(st["rv"], bb, idx))
+            f = dict(t[3])
+            for name in ("onlink", "autonomous"):
+                if name not in f:
+                    continue
+                n += 1
+                ctx.saw(b)
+                v = norm(f[name])
+                okv = v[0] == "call" and str(v[1]).endswith("::unwrap_or") and len(v[2]) == 2 and is_const(norm(v[2][1]), True)
+                ctx.check(okv, "R13", "prefix-default:%s=true" % name, ctx.where(b, st["sp"]),
+                          "an omitted `%s` must default to true (is %s)" % (name, show(v)[:80]))
+            for name, secs in (("valid", 2592000), ("preferred", 604800)):
+                if name not in f:
+                    continue
+                n += 1
+                v = norm(f[name])
+                consts = set()
+                for y in subterms(v):
+                    if y[0] == "const" and isinstance(y[1], int) and not isinstance(y[1], bool):
+                        consts.add(y[1])
+                    if y[0] == "agg" and isinstance(y[1], str) and y[1].startswith("closure:") and y[1][8:] in P.bodies:
+                        for _, k, _ in body_consts(P.bodies[y[1][8:]]):
+                            if isinstance(k, dict) and const_int(k) is not None:
+                                consts.add(const_int(k))
+                ctx.check(secs in consts, "R13", "prefix-default:%s=%ds" % (name, secs), ctx.where(b, st["sp"]),
+                          "an omitted `%s` lifetime must default to %d s (constants found: %s)" % (name, secs, sorted(consts)[:6]))
+    if ctx.config in ("default", "radv"):
+        ctx.floor("R13", "defaults of a configured prefix", n, 4)
+
+
 def _r12_every_prefix_is_advertised(ctx):
     """R12 every configured prefix gets its Prefix Information option: in the loop over the interface's prefixes no path goes on to the next
     prefix without having added the option for this one (no `continue` for a prefix that another one "covers")."""
@@ -161,6 +201,7 @@ def run(ctx):
     _r1(ctx)
     _r11_lists_as_configured(ctx)
     _r12_every_prefix_is_advertised(ctx)
+    _r13_prefix_defaults(ctx)
     enc = [f for f in P.bodies if f.endswith("radv::icmppkt::serialise_router_advertisement")]
     ctx.floor("R3", "RA encoder", len(enc), 1)
     if enc:
@@ -331,6 +372,15 @@ def _r1(ctx):
                                         srcs_c = True
             ctx.check(srcs_i and srcs_c, "R1", "option:%s<-interface.%s|config.%s" % (var, intf_f, conf_f), ctx.where(b, tm["sp"]),
                       "the interface setting, else the top-level default")
+        # each list option carries its own lifetime setting: RDNSS the dns-servers lifetime, DNSSL the dns-search lifetime
+        for var, lf in (("RecursiveDnsServers", "rdnss_lifetime"), ("DnsSearchList", "dnssl_lifetime")):
+            if var in opts:
+                a, tm = opts[var]
+                tup = norm(a[3][0][1])
+                first = norm(tup[3][0][1]) if tup[0] == "agg" and tup[3] else ("unknown",)
+                flds = sorted({y[2] for y in subterms(first) if y[0] == "field" and str(y[2]).endswith("_lifetime")})
+                ctx.check(flds == [lf], "R1", "option:%s:lifetime<-interface.%s" % (var, lf), ctx.where(b, tm["sp"]),
+                          "the lifetime of %s is computed from %s" % (var, flds or show(first)[:60]))
         for var in ("Mtu", "Pref64", "SourceLLAddr", "Prefix"):
             ctx.check(var in opts, "R1", "option:%s:added" % var, ctx.where(b), "")
         if "Pref64" in opts:
